@@ -4,7 +4,7 @@
                  82 passed / the same 3 failed, the demonstration fails with the change and passes without it.
   phase detect:  applies the patch to /repo's working tree, runs the quick tier of the target property's check (and, if that
                  stays silent, of all other checks), and restores /repo (git checkout -- .).  Nothing is ever committed in /repo.
-usage: bin/seed_eval.py verify|detect <PID> <a|b> [--all]
+usage: bin/seed_eval.py verify|detect <PID> <a|b|c|d> [--all]
 Results: /verif/seeded/<PID>-<x>/{patch.diff, demo.rs, agent_meta.txt, meta.json}"""
 import json, os, re, shutil, subprocess, sys, time
 
@@ -48,7 +48,8 @@ def save_meta(d, m):
 
 
 def verify(pid, x):
-    src = f"/tmp/mut/{pid}/handover/{x}"
+    # second round of sub-agents (variants c, d) handed over under /tmp/mut2/<pid>/handover/{a,b}
+    src = f"/tmp/mut/{pid}/handover/{x}" if x in "ab" else f"/tmp/mut2/{pid}/handover/{'a' if x == 'c' else 'b'}"
     dst = os.path.join(ROOT, "seeded", f"{pid}-{x}")
     os.makedirs(dst, exist_ok=True)
     for f, g in [("patch.diff", "patch.diff"), ("demo.rs", "demo.rs"), ("meta.txt", "agent_meta.txt")]:
